@@ -11,5 +11,8 @@ CONSTANTS
   WildcardsFirst = FALSE
   LastGlobWins = TRUE
   LeadingStarZero = FALSE
+  Umbrella = FALSE
+  UVal = "p"
+  UmbrellaAfterConfig = TRUE
 INVARIANT ParentsFirst
 INVARIANT PrecedenceAsDocumented
